@@ -588,7 +588,10 @@ def s_layers(draw):
     dest = "mem" if api in ("to_cog", "layers_default_dst") else draw(st.sampled_from(["mem", "file_str", "file_path"]))
     ow = draw(st.sampled_from(["omit", "omit", False, True]))
     return {"img": img, "opts": opts, "ovr_shapes": shapes, "ovr_mode": draw(st.sampled_from(["fresh", "fresh", "slice"])),
-            "api": api, "dest": dest, "overwrite": ow}
+            "api": api, "dest": dest, "overwrite": ow,
+            # GDAL configuration the caller's process happens to run under (the usual cloud settings)
+            "gdal_env": draw(st.sampled_from([None, None, None, {"GDAL_DISABLE_READDIR_ON_OPEN": "EMPTY_DIR"}, {"GDAL_DISABLE_READDIR_ON_OPEN": "TRUE"},
+                                              {"GDAL_DISABLE_READDIR_ON_OPEN": "EMPTY_DIR", "CPL_VSIL_CURL_ALLOWED_EXTENSIONS": ".tif"}]))}
 
 
 @st.composite
@@ -825,10 +828,28 @@ def o_existing(case, T):
     T.cls("refuse=" + str(case["refuse"]))
 
 
+def _under_ambient_env(oracle):
+    """Run the oracle inside the GDAL configuration named by case['gdal_env'] (none by default)."""
+
+    def run(case, T):
+        env = case.get("gdal_env")
+        if not env:
+            return oracle(case, T)
+        import rasterio
+
+        T.cls("ambient_gdal_env:" + "+".join("%s=%s" % kv for kv in sorted(env.items()))[:60])
+        with rasterio.Env(**env):
+            return oracle(case, T)
+
+    run.__name__ = oracle.__name__
+    run.__doc__ = oracle.__doc__
+    return run
+
+
 def build(chk: Check) -> None:
     chk.sub("roundtrip", o_roundtrip, strategy=s_roundtrip(), n={"quick": 560, "thorough": 12000},
             budget_s={"quick": 70, "thorough": 480}, shrink=False)
-    chk.sub("supplied_overviews", o_layers, strategy=s_layers(), n={"quick": 240, "thorough": 7000},
+    chk.sub("supplied_overviews", _under_ambient_env(o_layers), strategy=s_layers(), n={"quick": 240, "thorough": 7000},
             budget_s={"quick": 40, "thorough": 240}, shrink=False)
     chk.sub("existing_destination", o_existing, strategy=s_existing(), n={"quick": 160, "thorough": 5000},
             budget_s={"quick": 40, "thorough": 160}, shrink=False)
